@@ -38,7 +38,7 @@ theorem tick_stat (s : State) (k : Nat) (h : pos s = sched (4 * k)) :
     hasStat (tick4 s).2 = statEv (enOf s) s.lyc (4 * k) (4 * k + 4) := by
   have e := stepOf_sched k
   rw [tick4_stat, h, e.1, e.2.1, e.2.2.1]
-  simp only [statEv, modeEntered, lyChanged, Bool.and_assoc, forMode_ne3]
+  simp only [statEv, statEvP, modeEnteredP, lyChangedP, Bool.and_assoc, forMode_ne3]
   cases s; rfl
 
 /-! ### runs -/
@@ -73,6 +73,20 @@ theorem run_stat (n : Nat) : âˆ€ (s : State) (k : Nat), pos s = sched (4 * k) â†
     simp only [hasStat_or, anyTick]
     rw [tick_stat s k h, ih (tick4 s).1 (k + 1) (tick_closed s k h), tick4_enOf, (tick4_regs s).1]
 
+/-- the one-pass scan of the spec is `anyTick` for both event kinds -/
+theorem evScan_eq (e : Enables) (lyc : Nat) (n : Nat) : âˆ€ (k : Nat) (vb st : Bool),
+    evScan e lyc (sched (4 * k)) k n vb st =
+      (sched (4 * (k + n)), vb || anyTick vblankEv k n, st || anyTick (statEv e lyc) k n) := by
+  induction n with
+  | zero => intro k vb st; simp [evScan, anyTick]
+  | succ n ih =>
+    intro k vb st
+    have h4 : 4 * k + 4 = 4 * (k + 1) := by omega
+    simp only [evScan, anyTick]
+    rw [h4, ih (k + 1)]
+    simp only [vblankEv, statEv, h4, Bool.or_assoc]
+    congr 3; omega
+
 /-! ### register writes leave the position alone -/
 
 theorem setStat_pos (v : Nat) (s : State) : pos (setStat v s).1 = pos s := rfl
@@ -95,6 +109,10 @@ theorem exec_closed (ops : List Op) : âˆ€ (s : State) (k : Nat), pos s = sched (
     | lyc v =>
       have := ih (setLyc v s).1 k (by rw [setLyc_pos]; exact h)
       simpa only [exec, List.foldl_cons, step, ticksOf] using this
+
+theorem exec_append_run (s : State) (ops : List Op) (n : Nat) :
+    exec s (ops ++ [.run n]) = (run n (exec s ops)).1 := by
+  simp only [exec, List.foldl_append, List.foldl_cons, List.foldl_nil, step]
 
 theorem pos_powerOn : pos powerOn = sched (4 * 0) := by decide
 
